@@ -29,6 +29,24 @@ def run(chk):
             expect(chk, "R-QUAD", c + ".velocity", v, tags_has=[quad], tags_not=[other], loc=r.fi.loc())
             expect(chk, "R-QUAD", c + ".displacement", d, tags_has=[quad], tags_not=[other], loc=r.fi.loc())
     check_forwarder(chk, "R-INT-TYPE", FWD, ARR)
+    # a record handed over as a Python list (the trapezoid branch accepts one): `+` between two lists concatenates and `*` with a float raises,
+    # so the record must reach an array routine (or be coerced) before any arithmetic; the result is still one sample per sample
+    def _list_rec(I, st, fi):
+        el = AV(kind=K_SCALAR, dtype="real", shape=(), alg={R: HOM(1, "odd")}, origin=frozenset(["lit"]), tags=frozenset(["p:acceleration"]))
+        return dict(acceleration=AV(kind=K_LIST, elem=el, shape=(LinExpr("n"),), alg={R: HOM(1, "odd")}, origin=frozenset(["p:acceleration"]),
+                                    tags=frozenset(["p:acceleration"])), dt=pos_scalar("dt", DT), trap=const_av(True))
+    r = analyse(chk, ARR, _list_rec)
+    c = "eqsig/displacements.py:calc_velo_and_disp_from_accel_arr(trap=True, record given as a list)"
+    te_ = [e for e in r.I.events if e.kind == "type-error"]
+    lc_ = [e for e in r.I.events if e.kind == "arith" and e.op == "Add" and e.left is not None and e.right is not None and
+           e.left.kind in (K_LIST, K_TUPLE) and e.right.kind in (K_LIST, K_TUPLE) and "p:acceleration" in (e.left.tags | e.right.tags)]
+    chk.ob("R-INT-TYPE", c + "{arithmetic}", "no list arithmetic on the record (list + list concatenates, list * float raises)", not te_ and not lc_,
+           derived=("%s: %s" % (te_[0].loc, te_[0].what)) if te_ else (("%s: `+` of two lists (concatenation) in %s" % (lc_[0].loc, lc_[0].stmt)) if lc_ else
+                                                                      "the record reaches array routines only"),
+           loc=(te_[0].loc if te_ else (lc_[0].loc if lc_ else r.fi.loc())))
+    v_ = item(r.ret, 0)
+    if v_ is not None and v_.length() is not None:
+        chk.ob("R-INT-TYPE", c + ".velocity[len]", "length n", v_.length() == LinExpr("n"), derived="length %r" % (v_.length(),), loc=r.fi.loc())
     from ..tyob import no_truncation
     for trap in (True, False):
         no_truncation(chk, "R-INT-TYPE", ARR, lambda I, st, fi, trap=trap: dict(acceleration=rec_array("acceleration", dtype="int"),
